@@ -126,7 +126,7 @@ func c17PositionsAreErrors(c *Ctx, rule string) {
 			}
 			n++
 			s := c.boundSources(f, sl.High)
-			c.R.Check(rule, "left:count", c.P.InstrPos(sl), s.other == "" && s.params[1] && len(s.params) == 1 && len(s.consts) == 0, "the count of `left` must reach the slice as given, capped at len(s) only (a negative count is an error, not an empty string); it comes from "+describe(s))
+			c.R.Check(rule, "left:count", c.P.InstrPos(sl), s.other == "" && s.params[1] && len(s.params) == 1 && len(s.consts) == 0 || c17CasesDecided(c, "left"), "the count of `left` must reach the slice as given, capped at len(s) only (a negative count is an error, not an empty string); it comes from "+describe(s))
 		}
 	}
 	if f := c.BuiltinFn("right"); f != nil && len(f.Params) == 2 {
@@ -137,7 +137,7 @@ func c17PositionsAreErrors(c *Ctx, rule string) {
 			}
 			n++
 			s := c.boundSources(f, bo.Y)
-			c.R.Check(rule, "right:count", c.P.InstrPos(sl), s.other == "" && s.params[1] && len(s.params) == 1 && len(s.consts) == 0, "the count of `right` must reach the slice as given, capped at len(s) only (a negative count is an error, not an empty string); it comes from "+describe(s))
+			c.R.Check(rule, "right:count", c.P.InstrPos(sl), s.other == "" && s.params[1] && len(s.params) == 1 && len(s.consts) == 0 || c17CasesDecided(c, "right"), "the count of `right` must reach the slice as given, capped at len(s) only (a negative count is an error, not an empty string); it comes from "+describe(s))
 		}
 	}
 	if f := c.BuiltinFn("mid"); f != nil && len(f.Params) == 3 {
@@ -153,8 +153,8 @@ func c17PositionsAreErrors(c *Ctx, rule string) {
 					okLo = false
 				}
 			}
-			c.R.Check(rule, "mid:start", c.P.InstrPos(sl), okLo, "the start of `mid` is floored at 0 and otherwise reaches the slice as given (a start beyond the end is an error, not an empty string); it comes from "+describe(lo))
-			c.R.Check(rule, "mid:end", c.P.InstrPos(sl), hi.other == "" && hi.params[2] && len(hi.params) == 1 && len(hi.consts) == 0, "the end of `mid` is capped at len(s) and otherwise reaches the slice as given (a negative end is an error, not an empty string); it comes from "+describe(hi))
+			c.R.Check(rule, "mid:start", c.P.InstrPos(sl), okLo || c17CasesDecided(c, "mid"), "the start of `mid` is floored at 0 and otherwise reaches the slice as given (a start beyond the end is an error, not an empty string); it comes from "+describe(lo))
+			c.R.Check(rule, "mid:end", c.P.InstrPos(sl), hi.other == "" && hi.params[2] && len(hi.params) == 1 && len(hi.consts) == 0 || c17CasesDecided(c, "mid"), "the end of `mid` is capped at len(s) and otherwise reaches the slice as given (a negative end is an error, not an empty string); it comes from "+describe(hi))
 		}
 	}
 	if n == 0 {
@@ -176,17 +176,28 @@ func sortedIntKeys(m map[int]bool) []int {
 // left(s,3)|len 5 -> s[:3], left(s,9)|5 -> s[:5]; right(s,3)|5 -> s[2:], right(s,9)|5 -> s[0:];
 // mid(s,1,3)|5 -> s[1:3], mid(s,-2,3)|5 -> s[0:3], mid(s,1,9)|5 -> s[1:5]. A cap written as a floor (`if n < limit
 // { return limit }`) passes every provenance rule and fails here. Sample points the fold cannot decide say nothing.
+// c17Decided: builtins all of whose sample points were decided, and decided right, by c17BoundsByCases in this program.
+var c17Decided = map[*Ctx]map[string]bool{}
+
 func c17BoundsByCases(c *Ctx, rule string) {
 	type sample struct {
 		args   []int64 // integer arguments after s
 		n      int64   // len(s)
 		lo, hi int64   // expected bounds (-1: absent)
+		err    bool    // the slice expression must be out of range (an error, not an empty string)
 	}
 	run := func(name string, samples []sample) {
 		f := c.BuiltinFn(name)
 		if f == nil || len(f.Params) == 0 {
 			return
 		}
+		allDecided, allGood := len(samples) > 0, true
+		defer func() {
+			if c17Decided[c] == nil {
+				c17Decided[c] = map[string]bool{}
+			}
+			c17Decided[c][name] = allDecided && allGood
+		}()
 		for _, sm := range samples {
 			if len(f.Params) != len(sm.args)+1 {
 				return
@@ -195,18 +206,79 @@ func c17BoundsByCases(c *Ctx, rule string) {
 			for _, a := range sm.args {
 				args = append(args, intLV(a))
 			}
-			// len(<the string>) anywhere the string flows (the builtin itself and helpers it is handed to)
+			// len(<the string>) anywhere the string flows (the builtin itself and helpers it is handed to); the length
+			// of a slice of it is what its folded bounds say (found in a second pass)
+			sliceLen := map[ssa.Value]int64{}
+			sliceAbs := map[ssa.Value][2]int64{} // absolute bounds of a slice of (a slice of) the string
 			lenPin := func(v ssa.Value) (constant.Value, bool) {
 				call, ok := v.(*ssa.Call)
 				if !ok || !isBuiltinCall(call, "len") || len(call.Call.Args) != 1 {
 					return nil, false
 				}
-				if call.Call.Args[0].Type().String() == "string" {
-					return constant.MakeInt64(sm.n), true
+				a := call.Call.Args[0]
+				if a.Type().String() != "string" {
+					return nil, false
 				}
-				return nil, false
+				if _, isSl := a.(*ssa.Slice); isSl {
+					if n, known := sliceLen[a]; known {
+						return constant.MakeInt64(n), true
+					}
+					return nil, false
+				}
+				return constant.MakeInt64(sm.n), true
 			}
-			r := (&Folder{P: c.P, MaxDepth: 3, Input: lenPin}).Fold(f, args)
+			var r *FoldResult
+			for pass := 0; pass < 3; pass++ {
+				r = (&Folder{P: c.P, MaxDepth: 3, Input: lenPin}).Fold(f, args)
+				grew := false
+				instrs(f, func(b *ssa.BasicBlock, i int, in ssa.Instruction) {
+					sl, ok := in.(*ssa.Slice)
+					if !ok || !r.Reach[b] || sl.Type().String() != "string" {
+						return
+					}
+					if _, have := sliceLen[sl]; have {
+						return
+					}
+					baseLo, baseLen := int64(0), int64(-1)
+					if sl.X == ssa.Value(f.Params[0]) {
+						baseLen = sm.n
+					} else if ab, ok := sliceAbs[sl.X]; ok {
+						baseLo, baseLen = ab[0], ab[1]-ab[0]
+					}
+					if baseLen < 0 {
+						return
+					}
+					get := func(v ssa.Value, dflt int64) (int64, bool) {
+						if v == nil {
+							return dflt, true
+						}
+						lv := r.Val(v)
+						if lv.K != lConst || lv.C.Kind() != constant.Int {
+							return 0, false
+						}
+						n, _ := constant.Int64Val(lv.C)
+						return n, true
+					}
+					lo, ok1 := get(sl.Low, 0)
+					hi, ok2 := get(sl.High, baseLen)
+					if !ok1 || !ok2 {
+						return
+					}
+					if lo < 0 || hi < lo || hi > baseLen {
+						// out of range: the expression fails here; recorded as an invalid absolute range
+						sliceAbs[sl] = [2]int64{baseLo + lo, baseLo + hi}
+						sliceLen[sl] = -1
+						grew = true
+						return
+					}
+					sliceAbs[sl] = [2]int64{baseLo + lo, baseLo + hi}
+					sliceLen[sl] = hi - lo
+					grew = true
+				})
+				if !grew {
+					break
+				}
+			}
 			cons := fmt.Sprintf("%s%v,len=%d", name, sm.args, sm.n)
 			decided := false
 			good := true
@@ -216,7 +288,47 @@ func c17BoundsByCases(c *Ctx, rule string) {
 					continue
 				}
 				sl, ok := ret.Results[0].(*ssa.Slice)
-				if !ok || sl.X != ssa.Value(f.Params[0]) {
+				if !ok {
+					continue
+				}
+				if sl.X != ssa.Value(f.Params[0]) {
+					// a slice of a slice of the string: judged by its absolute bounds
+					ab, known := sliceAbs[sl]
+					if !known {
+						continue
+					}
+					decided = true
+					lo, hi := ab[0], ab[1]
+					invalid := sliceLen[sl] < 0
+					for x := sl.X; ; {
+						inner, isSl := x.(*ssa.Slice)
+						if !isSl {
+							break
+						}
+						if sliceLen[inner] < 0 {
+							invalid = true
+						}
+						x = inner.X
+					}
+					wl, wh := sm.lo, sm.hi
+					if wl == -1 {
+						wl = 0
+					}
+					if wh == -1 {
+						wh = sm.n
+					}
+					if sm.err {
+						if !invalid {
+							good = false
+							got = fmt.Sprintf("s[%d:%d], a valid slice", lo, hi)
+						}
+					} else if invalid || lo != wl || hi != wh {
+						good = false
+						got = fmt.Sprintf("s[%d:%d]", lo, hi)
+						if invalid {
+							got += " (out of range)"
+						}
+					}
 					continue
 				}
 				val := func(v ssa.Value) (int64, bool) {
@@ -237,10 +349,10 @@ func c17BoundsByCases(c *Ctx, rule string) {
 				}
 				decided = true
 				// an absent bound stands for 0 / len(s)
-				if lo == -1 {
+				if sl.Low == nil {
 					lo = 0
 				}
-				if hi == -1 {
+				if sl.High == nil {
 					hi = sm.n
 				}
 				wl, wh := sm.lo, sm.hi
@@ -250,13 +362,55 @@ func c17BoundsByCases(c *Ctx, rule string) {
 				if wh == -1 {
 					wh = sm.n
 				}
-				if lo != wl || hi != wh {
+				if sm.err {
+					// the folded bounds must be ones the slice expression rejects at run time
+					if !(lo < 0 || hi < 0 || lo > hi || hi > sm.n) {
+						good = false
+						got = fmt.Sprintf("s[%d:%d], a valid slice", lo, hi)
+					}
+				} else if lo != wl || hi != wh {
 					good = false
 					got = fmt.Sprintf("s[%d:%d]", lo, hi)
 				}
 			}
 			if !decided {
-				c.R.Add(rule, cons, c.P.Pos(f.Pos()), OK, "")
+				// written as a composition of other string functions: evaluated through them
+				if ab, bad, dec := c.strEval(f, [2]int64{0, sm.n}, args[1:], 0); dec {
+					decided = true
+					wl, wh := sm.lo, sm.hi
+					if wl == -1 {
+						wl = 0
+					}
+					if wh == -1 {
+						wh = sm.n
+					}
+					switch {
+					case sm.err && !bad:
+						good, got = false, fmt.Sprintf("s[%d:%d], a valid slice", ab[0], ab[1])
+					case !sm.err && bad:
+						good, got = false, "an out-of-range slice"
+					case !sm.err && (ab[0] != wl || ab[1] != wh):
+						good, got = false, fmt.Sprintf("s[%d:%d]", ab[0], ab[1])
+					}
+				}
+			}
+			if !decided {
+				allDecided = false
+				if rule != "" {
+					c.R.Add(rule, cons, c.P.Pos(f.Pos()), OK, "")
+				}
+				continue
+			}
+			if !good {
+				allGood = false
+			}
+			if sm.err {
+				if rule != "" {
+					c.R.Check(rule, cons, c.P.Pos(f.Pos()), good, fmt.Sprintf("with a string of %d bytes `%s%v` must fail (a position outside the string is an error, not an empty string); the folded bounds are %s", sm.n, name, sm.args, got))
+				}
+				continue
+			}
+			if rule == "" {
 				continue
 			}
 			c.R.Check(rule, cons, c.P.Pos(f.Pos()), good, fmt.Sprintf("with a string of %d bytes `%s` must return s[%d:%d]; the folded bounds are %s: a clamp points the wrong way or is missing", sm.n, name, max64(sm.lo, 0), func() int64 {
@@ -267,9 +421,18 @@ func c17BoundsByCases(c *Ctx, rule string) {
 			}(), got))
 		}
 	}
-	run("left", []sample{{[]int64{3}, 5, -1, 3}, {[]int64{9}, 5, -1, 5}, {[]int64{5}, 5, -1, 5}})
-	run("right", []sample{{[]int64{3}, 5, 2, -1}, {[]int64{9}, 5, 0, -1}})
-	run("mid", []sample{{[]int64{1, 3}, 5, 1, 3}, {[]int64{-2, 3}, 5, 0, 3}, {[]int64{1, 9}, 5, 1, 5}, {[]int64{0, 5}, 5, 0, 5}})
+	run("left", []sample{{[]int64{3}, 5, -1, 3, false}, {[]int64{9}, 5, -1, 5, false}, {[]int64{5}, 5, -1, 5, false}, {[]int64{-1}, 5, 0, 0, true}})
+	run("right", []sample{{[]int64{3}, 5, 2, -1, false}, {[]int64{9}, 5, 0, -1, false}, {[]int64{-2}, 5, 0, 0, true}})
+	run("mid", []sample{{[]int64{1, 3}, 5, 1, 3, false}, {[]int64{-2, 3}, 5, 0, 3, false}, {[]int64{1, 9}, 5, 1, 5, false}, {[]int64{0, 5}, 5, 0, 5, false}, {[]int64{3, 1}, 5, 0, 0, true}, {[]int64{1, -3}, 5, 0, 0, true}, {[]int64{7, 9}, 5, 0, 0, true}})
+}
+
+// c17CasesDecided: name's bounds are decided, and decided right, at every sample point (the error points included) in
+// this program; computed without emitting obligations when bounds-by-cases has not run yet.
+func c17CasesDecided(c *Ctx, name string) bool {
+	if c17Decided[c] == nil {
+		c17BoundsByCases(c, "")
+	}
+	return c17Decided[c][name]
 }
 
 func max64(a, b int64) int64 {
@@ -277,4 +440,218 @@ func max64(a, b int64) int64 {
 		return a
 	}
 	return b
+}
+
+// strEval: what a string function g (first parameter the string, further parameters integers) returns for a string
+// that is the range abs of the original one and the given integer arguments: the absolute range of the result, whether
+// evaluating it runs out of range (an error), and whether this could be decided. Follows slices of slices and results
+// handed on from other module functions of the same kind (`return funRight(head, end-start)`).
+func (c *Ctx) strEval(g *ssa.Function, abs [2]int64, ints []LV, depth int) (res [2]int64, invalid, decided bool) {
+	if g == nil || len(g.Blocks) == 0 || depth > 3 || len(g.Params) != len(ints)+1 || g.Params[0].Type().String() != "string" {
+		return res, false, false
+	}
+	n := abs[1] - abs[0]
+	args := append([]LV{bottom}, ints...)
+	sliceLen := map[ssa.Value]int64{}
+	sliceAbs := map[ssa.Value][2]int64{}
+	callAbs := map[ssa.Value][2]int64{} // results of module calls that were evaluated
+	callBad := map[ssa.Value]bool{}
+	lenOf := func(a ssa.Value) (int64, bool) {
+		switch x := a.(type) {
+		case *ssa.Slice:
+			l, ok := sliceLen[x]
+			return l, ok && l >= 0
+		case *ssa.Parameter:
+			if x == g.Params[0] {
+				return n, true
+			}
+		case *ssa.Extract:
+			if ab, ok := callAbs[x]; ok {
+				return ab[1] - ab[0], true
+			}
+		}
+		return 0, false
+	}
+	lenPin := func(v ssa.Value) (constant.Value, bool) {
+		call, ok := v.(*ssa.Call)
+		if !ok || !isBuiltinCall(call, "len") || len(call.Call.Args) != 1 || call.Call.Args[0].Type().String() != "string" {
+			return nil, false
+		}
+		if l, ok := lenOf(call.Call.Args[0]); ok {
+			return constant.MakeInt64(l), true
+		}
+		return nil, false
+	}
+	absOf := func(v ssa.Value) ([2]int64, bool) {
+		switch x := v.(type) {
+		case *ssa.Parameter:
+			if x == g.Params[0] {
+				return abs, true
+			}
+		case *ssa.Slice:
+			ab, ok := sliceAbs[x]
+			return ab, ok && sliceLen[x] >= 0
+		case *ssa.Extract:
+			ab, ok := callAbs[x]
+			return ab, ok
+		}
+		return [2]int64{}, false
+	}
+	var r *FoldResult
+	for pass := 0; pass < 4; pass++ {
+		r = (&Folder{P: c.P, MaxDepth: 3, Input: lenPin}).Fold(g, args)
+		grew := false
+		instrs(g, func(b *ssa.BasicBlock, i int, in ssa.Instruction) {
+			if !r.Reach[b] {
+				return
+			}
+			switch x := in.(type) {
+			case *ssa.Slice:
+				if x.Type().String() != "string" {
+					return
+				}
+				if _, have := sliceLen[x]; have {
+					return
+				}
+				base, ok := absOf(x.X)
+				if !ok {
+					return
+				}
+				get := func(v ssa.Value, dflt int64) (int64, bool) {
+					if v == nil {
+						return dflt, true
+					}
+					lv := r.Val(v)
+					if lv.K != lConst || lv.C.Kind() != constant.Int {
+						return 0, false
+					}
+					k, _ := constant.Int64Val(lv.C)
+					return k, true
+				}
+				lo, ok1 := get(x.Low, 0)
+				hi, ok2 := get(x.High, base[1]-base[0])
+				if !ok1 || !ok2 {
+					return
+				}
+				sliceAbs[x] = [2]int64{base[0] + lo, base[0] + hi}
+				sliceLen[x] = hi - lo
+				if lo < 0 || hi < lo || hi > base[1]-base[0] {
+					sliceLen[x] = -1
+				}
+				grew = true
+			case *ssa.Extract:
+				if x.Index != 0 || x.Type().String() != "string" {
+					return
+				}
+				if _, have := callAbs[x]; have || callBad[x] {
+					return
+				}
+				call, ok := x.Tuple.(*ssa.Call)
+				if !ok {
+					return
+				}
+				h := calleeOf(call)
+				if h == nil || !c.inModule(h) || len(call.Call.Args) == 0 {
+					return
+				}
+				base, ok := absOf(call.Call.Args[0])
+				if !ok {
+					return
+				}
+				var hints []LV
+				for _, a := range call.Call.Args[1:] {
+					lv := r.Val(a)
+					if lv.K != lConst {
+						return
+					}
+					hints = append(hints, lv)
+				}
+				ab, bad, dec := c.strEval(h, base, hints, depth+1)
+				if !dec {
+					return
+				}
+				if bad {
+					callBad[x] = true
+				} else {
+					callAbs[x] = ab
+				}
+				grew = true
+			}
+		})
+		if !grew {
+			break
+		}
+	}
+	// the results
+	first := true
+	for _, ret := range r.Returns {
+		if len(ret.Results) != 2 {
+			return res, false, false
+		}
+		v, e := ret.Results[0], ret.Results[1]
+		// an error handed on from a call that was evaluated: taken when that call fails
+		if ex, isE := e.(*ssa.Extract); isE && !isNilConst(e) {
+			if vx, isV := v.(*ssa.Extract); isV && vx.Tuple == ex.Tuple {
+				// `return h(..)`: both results of one call
+				if callBad[vx] {
+					return res, true, true
+				}
+				if ab, ok := callAbs[vx]; ok {
+					if !first && ab != res {
+						return res, false, false
+					}
+					res, first = ab, false
+					continue
+				}
+				return res, false, false
+			}
+			// `if err != nil { return "", err }` after a call that was evaluated and did not fail: not taken
+			skip := false
+			for cx := range callAbs {
+				if cx.(*ssa.Extract).Tuple == ex.Tuple {
+					skip = true
+				}
+			}
+			for cx := range callBad {
+				if cx.(*ssa.Extract).Tuple == ex.Tuple {
+					return res, true, true
+				}
+			}
+			if skip {
+				continue
+			}
+			return res, false, false
+		}
+		if !isNilConst(e) {
+			return res, false, false
+		}
+		if sl, isS := v.(*ssa.Slice); isS {
+			if l, known := sliceLen[sl]; known && l < 0 {
+				return res, true, true
+			}
+			// a failing slice further in
+			for x := sl.X; ; {
+				inner, isSl := x.(*ssa.Slice)
+				if !isSl {
+					break
+				}
+				if l, known := sliceLen[inner]; known && l < 0 {
+					return res, true, true
+				}
+				x = inner.X
+			}
+		}
+		ab, ok := absOf(v)
+		if !ok {
+			return res, false, false
+		}
+		if !first && ab != res {
+			return res, false, false
+		}
+		res, first = ab, false
+	}
+	if first {
+		return res, false, false
+	}
+	return res, false, true
 }
